@@ -61,7 +61,11 @@ def build_case(ctx):
         nsite = (2, 4)
     else:
         nsite = (3, 7)
-    gm = gen.random_basis_list(rng, nsite=nsite, max_dim=cap)
+    if r > 0.96:
+        gm = gen.long_chain(rng, 10, 10 if ctx.tier == "quick" else 11)
+        ctx.cls("long-chain")
+    else:
+        gm = gen.random_basis_list(rng, nsite=nsite, max_dim=cap)
     if len(gm.basis) == 1:
         ctx.cls("one-site")
     from renormalizer.model import basis as ba, Op
@@ -225,6 +229,13 @@ def run_case(ctx):
         if mpo is None:
             return
         swap_algo = ALGOS[int(rng.integers(0, 3))]
+        # A QR swap re-decomposes a two-site table in which the coefficients stand next to the structural unit
+        # entries of the symbolic MPO and drops what is below 1e-10 of the largest entry (by design, see 8.2):
+        # it presupposes coefficients within a few decades of unity.  Outside that range a graph algorithm is used.
+        lo, hi = min([1.0] + facs), max([1.0] + facs) * max(1, len(facs))
+        if swap_algo == "qr" and hi / lo > 1e7:
+            ctx.cls("qr-swap-skipped:coefficients-far-from-unity")
+            swap_algo = ALGOS[1 + int(rng.integers(0, 2))]
         order = list(range(nsite))
         cur_basis = list(basis)
         nsw = int(rng.integers(1, 9))
